@@ -400,6 +400,11 @@ class VariantIntervalCollection(AbstractFeatureIntervalCollection):
         yield from self.variant_intervals
 
     @property
+    def is_coding(self) -> bool:
+        """Never coding."""
+        return False
+
+    @property
     def children_guids(self) -> Set[UUID]:
         return {x.guid for x in self.variant_intervals}
 
